@@ -31,6 +31,7 @@ type World struct {
 	Funcs   map[string]*ssa.Function // by qualified short name, see funcKey
 	ctypes  []types.Type
 	tbn     map[string]types.Type
+	inn     map[*ssa.Global]bool
 }
 
 func verifDir() string {
